@@ -48,7 +48,7 @@ def native_bundle(w, mod, contracts, seed, tier, replays):
     from pyvc import repo
     cs = []
     for c in contracts:
-        if '<locals>' in c.qual or c.state or c.hints.get('ghost_out'): continue     # (ghost witnesses have no native counterpart)
+        if '<locals>' in c.qual or c.state or c.hints.get('ghost_out') or c.hints.get('kwargs_bag'): continue     # (ghost witnesses have no native counterpart)
         node, cls = repo.find_def(c.rel, c.qual)
         a = node.args
         order = [p.arg for p in a.posonlyargs + a.args + a.kwonlyargs]
